@@ -41,6 +41,6 @@ def jobs(tier):
 
 
 ASSUMPTIONS = ['S1 numpy shim', 'S2 exact arithmetic', 'S3 constant hash', 'S6 MIP stub for ilp',
-               'exact algorithms with 3 or more bins: a sums-only run may return another optimal partition, so only the objective value, the bin count and the internal consistency of each output are compared; heuristics and 2-bin results are compared as multisets of sums',
+               'exact algorithms with 3 or more bins: the quick tier compares the objective value, the bin count and the internal consistency of each output (a sums-only manager could in principle follow another optimal branch); the thorough tier demands identical multisets of sums, as the property states - this holds on the current tree on every shape explored; heuristics and 2-bin results are always compared as multisets of sums',
                'bin completion runs on value lists (named inputs: known finding under C07)']
 OUTSIDE = ['more than 4-5 items (8 for bin completion)', 'ilp: ten calls on one path multiply the stub\'s free choice of the optimum; its sums are checked against its bins in C17']
